@@ -1268,37 +1268,38 @@ SPECS = {
 def run_specs(rep, f, c, rule, names):
     """Run the scanner analysis for the named functions and turn its obligations into report obligations."""
     total = 0
-    for fn in names:
-        sem, kind, kw, measured = SPECS[fn]
-        b = f.body(fn)
-        if b is None:
-            rep.undecidable(rule, fn, 'function not found', None, c)
-            continue
-        sc = Scanner(f, b, sem, kind, **kw)
-        try:
-            res = sc.run()
-        except OverflowError as e:
-            rep.undecidable(rule, fn, 'path bound exceeded: %s' % e, sp_str(b.raw['span']), c)
-            continue
-        if not getattr(sc, 'main_root', None):
-            # no index-driven loads at all: in this configuration the function is a pure iterator kernel (decided by R-KERNEL)
-            rep.ob(rule + '.kernel-only', fn, fn in KERNEL_ONLY.get(c, ()), 'no buffer loads found: expected an index-driven scanner in this configuration',
-                   sp_str(b.raw['span']), None, c)
-            continue
-        for pr in sc.problems:
-            rep.undecidable(rule, '%s:%s' % (fn, pr), pr, sp_str(b.raw['span']), c)
-        n = 0
-        for key, (ok, msg, bb, extra) in sorted(res.items()):
-            n += 1
-            ex = {'accepts': sem.name, 'verdict_kind': kind}
-            if extra and not ok:
-                ex.update({k_: (v_ if isinstance(v_, (int, str, list)) else repr(v_)) for k_, v_ in extra.items()})
-            rep.ob(rule, key, ok, msg, sp_str(b.blocks[bb]['tsp']) or sp_str(b.raw['span']), ex, c)
-        total += n
-        rep.count('scan.obligations:%s:%s' % (c, fn), n)
-        rep.count('scan.segments:%s:%s' % (c, fn), sc.nseg)
-        rep.count('scan.return_paths:%s:%s' % (c, fn), sc.returns_seen)
-        rep.floor(rule, 'scanner obligations decided for %s' % fn, n, measured, c)
+    for fn0 in names:
+        sem, kind, kw, measured = SPECS[fn0]
+        for fn in impl_bodies(f, fn0):
+            b = f.body(fn)
+            if b is None:
+                rep.undecidable(rule, fn, 'function not found', None, c)
+                continue
+            sc = Scanner(f, b, sem, kind, **kw)
+            try:
+                res = sc.run()
+            except OverflowError as e:
+                rep.undecidable(rule, fn, 'path bound exceeded: %s' % e, sp_str(b.raw['span']), c)
+                continue
+            if not getattr(sc, 'main_root', None):
+                # no index-driven loads at all: in this configuration the function is a pure iterator kernel (decided by R-KERNEL)
+                rep.ob(rule + '.kernel-only', fn, fn0 in KERNEL_ONLY.get(c, ()), 'no buffer loads found: expected an index-driven scanner in this configuration',
+                       sp_str(b.raw['span']), None, c)
+                continue
+            for pr in sc.problems:
+                rep.undecidable(rule, '%s:%s' % (fn, pr), pr, sp_str(b.raw['span']), c)
+            n = 0
+            for key, (ok, msg, bb, extra) in sorted(res.items()):
+                n += 1
+                ex = {'accepts': sem.name, 'verdict_kind': kind}
+                if extra and not ok:
+                    ex.update({k_: (v_ if isinstance(v_, (int, str, list)) else repr(v_)) for k_, v_ in extra.items()})
+                rep.ob(rule, key, ok, msg, sp_str(b.blocks[bb]['tsp']) or sp_str(b.raw['span']), ex, c)
+            total += n
+            rep.count('scan.obligations:%s:%s' % (c, fn), n)
+            rep.count('scan.segments:%s:%s' % (c, fn), sc.nseg)
+            rep.count('scan.return_paths:%s:%s' % (c, fn), sc.returns_seen)
+            rep.floor(rule, 'scanner obligations decided for %s' % fn, n, measured, c)
     return total
 
 
